@@ -401,6 +401,30 @@ pub fn err_family(level: u32) -> Vec<Script> {
     out
 }
 
+/// C18: xors whose left branch succeeds or is still waiting (and one that holds an already caught failure):
+/// the handler in the right branch must never be requested.
+pub fn err_nofail_family() -> Vec<Script> {
+    let peers: Vec<String> = vec!["A".into(), "B".into()];
+    let ok = |p: &str, f: &str| call(p, f, vec![], Out::None);
+    let v: Vec<(&str, I)> = vec![
+        ("local-call", xor(ok("A", "ok1"), handler("B"))),
+        ("remote-call", xor(ok("B", "ok1"), handler("A"))),
+        ("waiting-for-remote-value", xor(seq(call("B", "f1", vec![], sc("x")), call("A", "g", vec![var("x")], Out::None)), handler("B"))),
+        ("never", xor(I::Never, handler("B"))),
+        ("null", xor(I::Null, handler("B"))),
+        ("match-true", xor(I::Match(Arg::Num(1), Arg::Num(1), Box::new(ok("A", "ok1"))), handler("B"))),
+        ("mismatch-true", xor(I::Mismatch(Arg::Num(1), Arg::Num(2), Box::new(ok("B", "ok1"))), handler("A"))),
+        ("par", xor(par(ok("B", "f1"), ok("A", "f2")), handler("A"))),
+        ("fold", xor(seq(call("A", "arr0", vec![], sc("xs")), fold(var("xs"), "it", seq(call("B", "f", vec![var("it")], Out::None), I::Next("it".into())))), handler("A"))),
+        ("waiting-for-canon", xor(seq(call("B", "f1", vec![], st("$s")), seq(canon("A", "$s", "#cs"), call("A", "g", vec![Arg::Canon("#cs".into())], Out::None))), handler("B"))),
+        ("inner-xor-catches", xor(xor(ok("A", "fail1"), ok("A", "ok1")), handler("B"))),
+        ("new-scope", xor(new("$z", ok("A", "ok1")), handler("B"))),
+        ("after-an-earlier-caught-failure", seq(xor(ok("A", "fail1"), I::Null), xor(ok("A", "ok2"), handler("B")))),
+        ("after-an-earlier-caught-failure-remote", seq(xor(ok("B", "fail1"), I::Null), xor(seq(ok("A", "ok2"), ok("B", "ok3")), handler("A")))),
+    ];
+    v.into_iter().map(|(n, ast)| Script { family: "ERR".into(), name: sname(&["ERR", "no-failure", n]), ast, peers: peers.clone() }).collect()
+}
+
 // ---------------------------------------------------------------------------------------------
 // SEQ_k: the fragment of C16
 
